@@ -12,6 +12,7 @@ import (
 
 	"go.dedis.ch/kyber/v4"
 	dkg "go.dedis.ch/kyber/v4/share/dkg/pedersen"
+	rdkg "go.dedis.ch/kyber/v4/share/dkg/rabin"
 	"go.dedis.ch/kyber/v4/sign/schnorr"
 
 	"verifharness/internal/kc"
@@ -149,6 +150,100 @@ func c11PacketBinding(c *kc.Ctx, rng *kc.Rng) {
 			b := copyJustBundle(jb)
 			m.do(b)
 			check("JustificationBundle", m.f, b, false)
+		}
+	}
+}
+
+// c11RabinPacketBinding: the same for the Rabin DKG's signed secret commitments (share/dkg/rabin:
+// ProcessSecretCommits verifies the sender's signature itself). An all-honest run is taken to the point where
+// the commitments are published; node 0's packet is then altered field by field and handed to node 2.
+func c11RabinPacketBinding(c *kc.Ctx, rng *kc.Rng) {
+	for _, mock := range []bool{true, false} {
+		w := newDkgWorld(mock, rng.Fork(fmt.Sprint("rpk", mock)))
+		n, t := 4, 3
+		secs := make([]kyber.Scalar, n)
+		pubs := make([]kyber.Point, n)
+		for i := range secs {
+			secs[i] = w.suite.Scalar().Pick(w.suite.RandomStream())
+			pubs[i] = w.suite.Point().Mul(secs[i], nil)
+		}
+		gens := make([]*rdkg.DistKeyGenerator, n)
+		ok := true
+		for i := range gens {
+			g, err := rdkg.NewDistKeyGenerator(w.suite, secs[i], pubs, uint32(t))
+			if err != nil {
+				ok = false
+				break
+			}
+			gens[i] = g
+		}
+		if !ok {
+			c.Unshown("harness:c11-rabin-packets", "cannot build generators", nil)
+			continue
+		}
+		var resps []*rdkg.Response
+		for _, g := range gens {
+			deals, err := g.Deals()
+			if err != nil {
+				ok = false
+				break
+			}
+			for i, d := range deals {
+				r, err := gens[i].ProcessDeal(d)
+				if err != nil {
+					ok = false
+					break
+				}
+				resps = append(resps, r)
+			}
+		}
+		for _, r := range resps {
+			for i, g := range gens {
+				if uint32(i) != r.Response.Index {
+					g.ProcessResponse(rabCopyResponse(r))
+				}
+			}
+		}
+		sc, err := gens[0].SecretCommits()
+		if !ok || err != nil || sc == nil {
+			c.Unshown("harness:c11-rabin-packets", fmt.Sprint("honest run did not reach the secret commitments: ", err), nil)
+			continue
+		}
+		other := w.suite.Point().Mul(w.suite.Scalar().Pick(w.suite.RandomStream()), nil)
+		cp := func() *rdkg.SecretCommits {
+			return &rdkg.SecretCommits{Index: sc.Index, Commitments: append([]kyber.Point{}, sc.Commitments...),
+				SessionID: append([]byte{}, sc.SessionID...), Signature: append([]byte{}, sc.Signature...)}
+		}
+		muts := []struct {
+			f  string
+			do func(x *rdkg.SecretCommits)
+		}{
+			{"Index", func(x *rdkg.SecretCommits) { x.Index = 1 }},
+			{"Commitments[0]", func(x *rdkg.SecretCommits) { x.Commitments[0] = other }},
+			{"Commitments[last]", func(x *rdkg.SecretCommits) { x.Commitments[len(x.Commitments)-1] = other }},
+			{"Commitments dropped", func(x *rdkg.SecretCommits) { x.Commitments = x.Commitments[:len(x.Commitments)-1] }},
+			{"Commitments added", func(x *rdkg.SecretCommits) { x.Commitments = append(x.Commitments, other) }},
+			{"SessionID", func(x *rdkg.SecretCommits) { x.SessionID = append([]byte{x.SessionID[0] ^ 1}, x.SessionID[1:]...) }},
+			{"Signature", func(x *rdkg.SecretCommits) { x.Signature = append([]byte{x.Signature[0] ^ 1}, x.Signature[1:]...) }},
+		}
+		for _, m := range muts {
+			x := cp()
+			m.do(x)
+			var cc *rdkg.ComplaintCommits
+			var e error
+			res := kc.Recover(func() string { cc, e = gens[2].ProcessSecretCommits(x); return "" })
+			c.Eval(1)
+			c.CountKind("packet-binding:rabin.SecretCommits")
+			c.Nontrivial(fmt.Sprintf("rpk|%v|%s", mock, m.f))
+			if res == "panic" {
+				c.Violation("packet-not-authenticated:rabin.SecretCommits:panic:"+m.f, fmt.Sprintf("%s: ProcessSecretCommits panics on an honest packet with %s altered", w.gname, m.f), map[string]any{"group": w.gname, "field": m.f})
+			} else if e == nil && cc == nil {
+				c.Violation("packet-not-authenticated:rabin.SecretCommits:"+m.f, fmt.Sprintf("%s: the secret commitments of an honest dealer with %s altered are accepted under the dealer's signature", w.gname, m.f), map[string]any{"group": w.gname, "field": m.f})
+			}
+		}
+		// control: the unaltered packet is accepted
+		if cc, e := gens[2].ProcessSecretCommits(cp()); e != nil || cc != nil {
+			c.Unshown("harness:c11-rabin-packets", fmt.Sprintf("%s: the unaltered secret commitments are not accepted: %v", w.gname, e), nil)
 		}
 	}
 }
